@@ -105,8 +105,10 @@ def diff_replay(seed, nrand):
                 rows = []
                 for l in open(p):
                     r = json.loads(l)
-                    for k in ("fault", "flt", "err", "msg", "why"):
-                        r.pop(k, None)   # fault texts carry instruction offsets of the script
+                    for k in list(r):
+                        if k.startswith(("fault", "flt")) or k in ("err", "msg", "why"):
+                            r.pop(k)     # fault texts carry instruction offsets of the script (and texts are no
+                                         # part of any property, DESIGN.md §8)
                     rows.append(json.dumps(canon(r), sort_keys=True))
                 return rows
             a, b = norm(paths["source"]), norm(paths["embedded"])
